@@ -163,6 +163,10 @@ def stepTokens (st : St) : List String → Option (St × String)
   | ["nclose", sid] => do
     let sid ← sid.toNat?
     pure (withNode st (st.node.closeStream sid) {})
+  | ["npoolrm", sid] => do
+    -- the pool drops the stream; `onStreamClose` has not run yet (it is waiting for `remoteMu`)
+    let sid ← sid.toNat?
+    pure (withNode st (st.node.poolRemove sid) {})
   | ["nkill", sid] => do
     let sid ← sid.toNat?
     pure (withNode st (st.node.closeStream sid) {})
